@@ -37,6 +37,9 @@ def jobs(tier):
                                  "the reloading socket symbolic): the shadow table holds exactly the other caches' records, is a valid "
                                  "table, the live table is untouched by the copy; the swap exchanges both roots inside one write section "
                                  "of each table" % nm))
+    # router-key side: the structural swap unit and the copy into a fresh table (defined with C10's jobs)
+    from . import C10
+    J += [j for j in C10.jobs("quick") if j.name in ("spki_swap", "hist_CA")]
     import os
     if os.environ.get("VERIF_C06_COPYSWAP"):
         J.append(C02.op_job("copy_swap_v4_d0e1", "harness_copy_swap", 0, 1, 4, 7200, prop="ASSERT_C06", harness="pfx_notify.c",
